@@ -26,6 +26,8 @@ type Thread struct {
 	parked    bool // parked at a visible op (DPOR mode)
 	recvOn    []*ChanV // channels this goroutine is currently blocked receiving from
 	fr        *frame   // innermost frame (for diagnostics)
+	proc      int      // modelled OS process this goroutine belongs to (0 = host / harness)
+	killed    bool     // its process was killed: reaped by the scheduler
 }
 
 type opDesc struct{ kind, obj, pos string }
@@ -62,6 +64,7 @@ type Sched struct {
 	now     Value // int64 or *Sym (BV64 ns)
 	why     string
 	locks   map[string]bool
+	rw      map[string]*rwState
 	wg      map[string]int
 	once    map[string]bool
 	exhaust bool
@@ -85,6 +88,9 @@ func (it *Interp) spawn(name string, fn func()) *Thread {
 		it.sch.cur.vc[it.sch.cur.id]++ // the parent moves past the fork
 	}
 	t.vc[t.id] = 1
+	if it.sch.cur != nil {
+		t.proc = it.sch.cur.proc
+	}
 	it.sch.threads = append(it.sch.threads, t)
 	go func() {
 		if !<-t.wake {
@@ -288,6 +294,11 @@ func (it *Interp) schedule() string {
 		alive := 0
 		for _, t := range s.threads {
 			if t.done {
+				continue
+			}
+			if t.killed { // its process died: the goroutine simply stops existing (no defers run)
+				t.wake <- false
+				<-s.yield
 				continue
 			}
 			alive++
